@@ -334,4 +334,52 @@ theorem gather_eof_counter (blen size fuel ce : Nat) (chunk : Bytes) (s : Stream
   · right
     exact ⟨chunk ++ (s.read size).1, (s.read size).2, by simp [h2], by omega⟩
 
+/- Full statement (NOT proved):
+
+  theorem reader_terminates (cfg script descend) (f : Frame) (s : Stream) (hs : s.NoEmpty) :
+      Ev.err .fuel ∉ drive cfg script descend (s.rem.length + 100) [(f, false)] s 0 []
+
+i.e. the whole drive loop (next / read / read_chunk / readline / release over nested readers)
+never exhausts a fuel linear in the unread bytes.  What is missing: the measure argument
+(unread bytes + `_prev_chunk` + 3 − `_content_eof`, lexicographically) through `Part.readChunk`,
+`Part.readLoop`, `Frame.next` and `drive`.  Proved instead: the innermost loop (the only one
+that re-reads the stream without handing anything out) cannot spin, and after EOF at most two
+more calls succeed; the outer loops are covered by correspondence (`E_FUEL` would be a
+mismatch) and by the step counter on the implementation. -/
+
+/-- **Termination, partial.** For every stream without empty segments, every boundary length,
+every positive read size and every value of the EOF counter: (1) the gathering loop of
+`_read_chunk_from_stream` ends within `boundary_len + 2` iterations; (2) once the stream is at
+EOF each further call either raises "Reading after EOF" or bumps `_content_eof`, which a
+successful call never leaves above 2. -/
+theorem reader_terminates_partial (blen size ce : Nat) (s : Stream) (hsz : 0 < size) (hs : s.NoEmpty) :
+    gather blen size (blen + 2) [] ce s ≠ .error .fuel ∧
+    (s.atEof = true → 0 < blen →
+      gather blen size (blen + 2) [] ce s = .error .value ∨
+      ∃ c s', gather blen size (blen + 2) [] ce s = .ok (c, ce + 1, s') ∧ ce + 1 ≤ 2) :=
+  ⟨gather_fuel_enough blen size ce s hsz hs,
+   fun heof hb => gather_eof_counter blen size (blen + 1) ce [] s hsz heof (by simpa using hb)⟩
+
+/-! ## Non-vacuity -/
+
+/-- the hypotheses of `roundtrip_any_chunking` are satisfiable: content `a\r\n-` with boundary
+`--b`, first read of 1 byte and fresh chunks of exactly `|sub|` = 5 bytes -/
+example : absRead (CRLF ++ [45, 45, 98]) [5, 5, 5, 5, 5, 5, 5, 5]
+    (CRLF ++ ([97, 13, 10, 45] ++ (CRLF ++ [45, 45, 98]) ++ [45, 45, 13, 10]).take 1) true
+    (([97, 13, 10, 45] ++ (CRLF ++ [45, 45, 98]) ++ [45, 45, 13, 10]).drop 1) [] = some [97, 13, 10, 45] := by
+  decide +kernel
+
+example : ∀ j, j ≤ 6 → isPrefix (CRLF ++ [45, 45, 98]) ((CRLF ++ [97, 13, 10, 45]).drop j) = false := by
+  decide
+
+/-- a reachable stream satisfies `NoEmpty` -/
+example : ({ buf := [], pending := [[1], [2, 3]] } : Stream).NoEmpty := by
+  intro x hx; simp at hx; rcases hx with rfl | rfl <;> simp
+
+/-- `size_truthful` is not vacuous: one plain part gets a size, and it is the length written -/
+example : sizeOf [98] [⟨[([65], [66])], [1, 2, 3], false, .none, [], [], []⟩] = some 25 ∧
+    (match writeParts false [98] [⟨[([65], [66])], [1, 2, 3], false, .none, [], [], []⟩] with
+      | .ok w => w.length | .error _ => 0) = 25 := by
+  decide +kernel
+
 end Aio.C19
